@@ -144,3 +144,27 @@ func init() {
 	fire("C20", "unexpected-eof-ends-silently", "io/uniprot/uniprot.go", `err\.Error\(\) == "EOF"`, `err.Error() == "EOF" || err == io.ErrUnexpectedEOF`, "LOOPEXIT/only io.EOF")
 	fire("C20", "error-channel-of-one", "io/uniprot/uniprot.go", `make\(chan error, 100\)`, `make(chan error, 1)`, "CHANLIFE/Read:error channel")
 }
+
+// positive examples for the shared rules on package-level state (state.go): on today's tree the rules
+// match nothing, so each has a variant that must fire and a sibling that must stay silent
+func init() {
+	sh := "seqhash/seqhash.go"
+	cl := "clone/clone.go"
+	pj := "io/polyjson/polyjson.go"
+	fire := func(prop, name, file, find, repl, expect string) {
+		addVariant(variant{Prop: prop, Name: name, File: file, Find: find, Replace: repl, Expect: expect})
+	}
+	silent := func(prop, name, file, find, repl string) {
+		addVariant(variant{Prop: prop, Name: name, File: file, Find: find, Replace: repl, Silent: true})
+	}
+	fire("C12", "failure-table-kept-between-calls", sh, `(?s)func boothLeastRotation\(sequence string\) int \{\n(.*?)\tfailureSlice := make\(\[\]int, len\(sequence\)\)\n`,
+		"var failureScratch []int\n\nfunc boothLeastRotation(sequence string) int {\n${1}\tif cap(failureScratch) < len(sequence) {\n\t\tfailureScratch = make([]int, len(sequence))\n\t}\n\tfailureSlice := failureScratch[:len(sequence)]\n", "STATE/scratch")
+	memo := func(key string) string {
+		return "var palindromeMemo sync.Map\n\nfunc CutWithEnzyme(seq Part, directional bool, enzyme Enzyme) []Fragment {\n${1}\tvar palindromic bool\n\tif known, ok := palindromeMemo.Load(" + key + "); ok {\n\t\tpalindromic = known.(bool)\n\t} else {\n\t\tpalindromic = checks.IsPalindromic(enzyme.RecognitionSite)\n\t\tpalindromeMemo.Store(" + key + ", palindromic)\n\t}\n"
+	}
+	cutHead := `(?s)func CutWithEnzyme\(seq Part, directional bool, enzyme Enzyme\) \[\]Fragment \{\n(.*?)\tpalindromic := checks\.IsPalindromic\(enzyme\.RecognitionSite\)\n`
+	fire("C10", "palindrome-remembered-by-enzyme-name", cl, cutHead, memo("enzyme.Name"), "STATE/memo-key")
+	silent("C10", "palindrome-remembered-by-recognition-site", cl, cutHead, memo("enzyme.RecognitionSite"))
+	fire("C15", "json-encoded-into-pooled-buffer", pj, `(?s)"encoding/json"\n(.*?)func Write\(sequence poly\.Sequence, path string\) \{\n\tfile, _ := json\.MarshalIndent\(sequence, "", " "\)\n`,
+		"\"bytes\"\n\t\"encoding/json\"\n\t\"sync\"\n${1}var jsonBuffers = sync.Pool{New: func() interface{} { return new(bytes.Buffer) }}\n\nfunc encodeJSON(sequence poly.Sequence) []byte {\n\tbuffer := jsonBuffers.Get().(*bytes.Buffer)\n\tdefer jsonBuffers.Put(buffer)\n\tbuffer.Reset()\n\tencoder := json.NewEncoder(buffer)\n\tencoder.SetIndent(\"\", \" \")\n\t_ = encoder.Encode(sequence)\n\treturn bytes.TrimSuffix(buffer.Bytes(), []byte(\"\\n\"))\n}\n\nfunc Write(sequence poly.Sequence, path string) {\n\tfile := encodeJSON(sequence)\n", "STATE/pool")
+}
